@@ -68,6 +68,10 @@ def lex(src):
                 m = re.match(r"'[A-Za-z_]\w*", src[i:])
                 toks.append(('life', m.group(0)))
                 i += m.end()
+        elif c.isdigit() and re.match(r'[0-9][0-9_]*\.[0-9][0-9_]*(?:f32|f64)?', src[i:]) and not (toks and toks[-1] == ('p', '.')):
+            m = re.match(r'([0-9][0-9_]*\.[0-9][0-9_]*)(f32|f64)?', src[i:])
+            toks.append(('fnum', m.group(1).replace('_', '')))
+            i += m.end()
         elif c.isdigit():
             m = re.match(r'0x[0-9A-Fa-f_]+|0b[01_]+|0o[0-7_]+|[0-9][0-9_]*', src[i:])
             txt = m.group(0)
@@ -352,6 +356,9 @@ class P:
         if t[0] == 'num':
             self.next()
             return ('num', t[1][0], t[1][1])
+        if t[0] == 'fnum':
+            self.next()
+            return ('fnum', t[1])
         if t[0] == 'str':
             self.next()
             return ('str', t[1])
@@ -602,6 +609,7 @@ class World:
         self.funcs = {}        # (type or None, fn name) -> dict(gname, plain, params, ret, recv ('mut'|'ref'|None), fuel)
         self.consts = {}       # rust path text -> (gallina term, rust type)
         self.get_type = {}     # attribute struct name -> gallina constant
+        self.const_vals = {}   # rust constant name -> python value (int, or float for f32)
 
     def gty(self, ty, self_ty=None):
         ty = (ty or '').replace(' ', '')
@@ -706,10 +714,67 @@ def effect_call(e, cx):
     return None
 
 
+def f32_round(x):
+    """nearest binary32 to the double x (ties to even), as a Python float"""
+    import struct
+    return struct.unpack('<f', struct.pack('<f', x))[0]
+
+
+def f32_term(x):
+    """a positive binary32 value as the (mantissa, exponent) pair of Agent/F32.v: 2^23 <= m < 2^24, value = m * 2^e"""
+    import math
+    if x == 0:
+        return '(0, 0%Z)'
+    if x < 0 or math.isinf(x) or math.isnan(x):
+        raise Unsupported('f32 constant %r' % x)
+    m, e = math.frexp(x)            # x = m * 2^e, 0.5 <= m < 1
+    mant = int(m * (1 << 24))
+    if mant * 2.0 ** (e - 24) != x:
+        raise Unsupported('f32 constant %r is not representable' % x)
+    return '(%d, (%d)%%Z)' % (mant, e - 24)
+
+
+def f32_const(e, cx):
+    """value of a constant f32 expression (literals, f32 / integer constants, + - * /, `as f32`), or None"""
+    w = cx.w
+    k = e[0]
+    if k == 'paren':
+        return f32_const(e[1], cx)
+    if k == 'fnum':
+        return f32_round(float(e[1]))
+    if k == 'path':
+        v = w.const_vals.get('::'.join(e[1]))
+        if isinstance(v, float):
+            return v
+        return None
+    if k == 'cast' and w.norm(e[2]) == 'f32':
+        inner = e[1]
+        while inner[0] == 'paren':
+            inner = inner[1]
+        if inner[0] == 'num':
+            return f32_round(float(inner[1]))
+        if inner[0] == 'path':
+            v = w.const_vals.get('::'.join(inner[1]))
+            if isinstance(v, int):
+                return f32_round(float(v))
+        return None
+    if k == 'bin' and e[1] in ('+', '-', '*', '/'):
+        a, b = f32_const(e[2], cx), f32_const(e[3], cx)
+        if a is None or b is None:
+            return None
+        r = a + b if e[1] == '+' else a - b if e[1] == '-' else a * b if e[1] == '*' else (a / b if b != 0 else None)
+        return None if r is None else f32_round(r)     # double rounding is innocuous for one binary32 operation
+    return None
+
+
 def tr_expr(e, cx, expect=None):
     """pure expression -> (gallina term, [conditions that must hold or the code panics], rust type or None)"""
     w = cx.w
     k = e[0]
+    if k in ('fnum', 'cast', 'bin', 'path'):
+        fv = f32_const(e, cx)
+        if fv is not None:
+            return f32_term(fv), [], 'f32'
     if k == 'paren':
         t, c, ty = tr_expr(e[1], cx, expect)
         return '(%s)' % t, c, ty
@@ -852,7 +917,8 @@ def tr_expr(e, cx, expect=None):
             conds.append('%s <=? %s' % (atom(rt), atom(lt)))
             return t, conds, lty
         if op in ('/', '%'):
-            conds.append('negb (%s =? 0)' % atom(rt))
+            if not (re.match(r'^\(?\d+\)?$', rt) and int(rt.strip('()')) != 0):
+                conds.append('negb (%s =? 0)' % atom(rt))
             return '%s %s %s' % (atom(lt), '/' if op == '/' else 'mod', atom(rt)), conds, lty
         raise Unsupported('operator %s' % op)
     if k == 'if':
@@ -898,6 +964,14 @@ def tr_expr(e, cx, expect=None):
                 return w.get_type[p[0]], [], 'AttributeType'
             if p == ['Duration', 'default'] or p == ['Duration', 'ZERO']:
                 return '0', [], 'Duration'
+            if p in (['cmp', 'max'], ['cmp', 'min'], ['std', 'cmp', 'max'], ['std', 'cmp', 'min']) and len(e[2]) == 2:
+                at, ac, aty = tr_expr(e[2][0], cx, expect)
+                bt, bc, bty = tr_expr(e[2][1], cx, aty)
+                return 'N.%s %s %s' % (p[-1], atom(at), atom(bt)), ac + bc, aty or bty
+            if len(p) == 2 and p[0] == 'Duration' and p[1] in ('from_secs', 'from_millis', 'from_micros', 'from_nanos') and len(e[2]) == 1:
+                t, c, _ = tr_expr(e[2][0], cx, 'u64')
+                mult = {'from_secs': 1000000000, 'from_millis': 1000000, 'from_micros': 1000, 'from_nanos': 1}[p[1]]
+                return ('%s * %d' % (atom(t), mult) if mult != 1 else t), c, 'Duration'
             ty = cx.self_ty if p[0] == 'Self' else p[0]
             if len(p) == 2 and (ty, p[1]) in w.funcs:
                 fi = w.funcs[(ty, p[1])]
@@ -961,6 +1035,20 @@ def tr_expr(e, cx, expect=None):
             if name == 'saturating_sub':
                 return '%s - %s' % (atom(t), atom(at)), c + ac, ty      # N subtraction truncates at zero
             return 'N.min (%s %s %s) %s' % (atom(t), '*' if name == 'saturating_mul' else '+', atom(at), top), c + ac, ty
+        if name == 'mul_f32' and len(args) == 1:
+            t, c, ty = tr_expr(recv, cx)
+            at, ac, aty = tr_expr(args[0], cx, 'f32')
+            if w.norm(ty, cx.self_ty) != 'Duration' or aty != 'f32':
+                raise Unsupported('mul_f32 on %s by %s' % (ty, aty))
+            return 'mul_f32 %s %s' % (atom(t), atom(at)), c + ac, 'Duration'
+        if name == 'abs_diff' and len(args) == 1:
+            t, c, ty = tr_expr(recv, cx)
+            at, ac, _ = tr_expr(args[0], cx, ty)
+            return 'absdiffN %s %s' % (atom(t), atom(at)), c + ac, ty
+        if name in ('max', 'min') and len(args) == 1:
+            t, c, ty = tr_expr(recv, cx)
+            at, ac, _ = tr_expr(args[0], cx, ty)
+            return 'N.%s %s %s' % (name, atom(t), atom(at)), c + ac, ty
         if name == 'then_some' and len(args) == 1:
             ct, cc, _ = tr_expr(recv, cx, 'bool')
             vt, vc, vty = tr_expr(args[0], cx)
@@ -1462,7 +1550,7 @@ def main():
     w = World()
     out = ['(* GENERATED by tools/rs2v.py from the source of /repo at check time: do not edit. *)',
            'From Coq Require Import List NArith Bool.', 'Import ListNotations.',
-           'From Rustun Require Import Base.GRes Generated.Constants.', 'Open Scope N_scope.', 'Open Scope bool_scope.', '']
+           'From Coq Require Import ZArith.', 'From Rustun Require Import Base.GRes Generated.Constants Agent.F32.', 'Open Scope N_scope.', 'Open Scope bool_scope.', '']
     failures = []
     attr_type_constants(w)
 
@@ -1528,6 +1616,27 @@ def main():
         except Unsupported as ex:
             failures.append('enum %s: %s' % (name, ex))
 
+    def emit_consts(rel):
+        """file-level `const NAME: T = EXPR;` items with an integer or f32 value become known constants"""
+        src = strip_comments(read(rel))
+        for m in re.finditer(r'^\s*(?:pub(?:\([a-z]+\))?\s+)?const\s+([A-Z][A-Z0-9_]*)\s*:\s*([\w:<>]+)\s*=\s*([^;]+);', src, re.M):
+            name, ty, text = m.group(1), m.group(2), m.group(3)
+            try:
+                ex = P(lex(text)).expr()
+                cxc = Ctx(w, None, None, [], [False])
+                if ty == 'f32':
+                    v = f32_const(ex, cxc)
+                    if v is not None:
+                        w.const_vals[name] = v
+                elif ty in INT_BITS or ty == 'Duration':
+                    t, c, _ = tr_expr(ex, cxc, ty)
+                    if not c:
+                        w.consts[name] = ('(%s)' % t, ty)
+                        if re.match(r'^\d+$', t):
+                            w.const_vals[name] = int(t)
+            except Unsupported:
+                pass
+
     # ---- stun-rs/src/common.rs
     emit_fn('gen_padding', 'stun-rs/src/common.rs', 'padding', key=(None, 'padding'))
     # ---- stun-rs/src/context.rs : the attribute admission filter of the decoder (C09)
@@ -1553,6 +1662,15 @@ def main():
     emit_record(tmo, 'RtoManager')
     emit_fn('gen_RtoManager_new', tmo, 'new', 'RtoManager', r'impl\s+RtoManager')
     emit_fn('gen_RtoManager_next_rto', tmo, 'next_rto', 'RtoManager', r'impl\s+RtoManager')
+
+    # ---- stun-agent/src/rtt.rs : the RTO estimator (C15); Duration::mul_f32 is Agent/F32.mul_f32 (binary32, round to nearest even)
+    rtt = 'stun-agent/src/rtt.rs'
+    emit_consts(rtt)
+    emit_record(rtt, 'RttCalcuator')
+    emit_fn('gen_RttCalcuator_new', rtt, 'new', 'RttCalcuator', r'impl\s+RttCalcuator')
+    emit_fn('gen_RttCalcuator_reset', rtt, 'reset', 'RttCalcuator', r'impl\s+RttCalcuator')
+    emit_fn('gen_RttCalcuator_update', rtt, 'update', 'RttCalcuator', r'impl\s+RttCalcuator')
+    emit_fn('gen_RttCalcuator_rto', rtt, 'rto', 'RttCalcuator', r'impl\s+RttCalcuator')
 
     body = '\n'.join(out) + '\n'
     os.makedirs(os.path.dirname(OUT), exist_ok=True)
